@@ -37,6 +37,7 @@ type Frame struct {
 	owns          bool
 	inOnce        bool
 	resKinds      map[string]bool
+	parKinds      map[string]bool
 	names         map[string][]nameRef
 }
 
